@@ -10,10 +10,10 @@ import json, os, re, subprocess, sys
 
 VERIF = os.path.dirname(os.path.dirname(os.path.abspath(__file__)))
 RELATED = {
- "C01": ["C01", "C03", "C06"], "C02": ["C02", "C15", "C03", "C06"], "C03": ["C03", "C11"], "C04": ["C04", "C11"], "C05": ["C05", "C06"], "C06": ["C06"],
- "C07": ["C07", "C15"], "C08": ["C08", "C13", "C06"], "C09": ["C09", "C03"], "C10": ["C10", "C03"], "C11": ["C11", "C08", "C04"], "C12": ["C12", "C05"],
- "C13": ["C13", "C08"], "C14": ["C14", "C09"], "C15": ["C15", "C02"], "C16": ["C16"], "C17": ["C17"], "C18": ["C18"],
- "C19": ["C19", "C05", "C03"], "C20": ["C20", "C06", "C16"],
+ "C01": ["C01", "C03", "C06"], "C02": ["C02", "C15", "C12", "C06"], "C03": ["C03", "C11"], "C04": ["C04", "C11", "C08"], "C05": ["C05", "C06", "C04", "C18"], "C06": ["C06"],
+ "C07": ["C07", "C15", "C11"], "C08": ["C08", "C13", "C06"], "C09": ["C09", "C03"], "C10": ["C10", "C03"], "C11": ["C11", "C08", "C04"], "C12": ["C12", "C05"],
+ "C13": ["C13", "C08", "C03"], "C14": ["C14", "C09"], "C15": ["C15", "C02", "C12"], "C16": ["C16"], "C17": ["C17"], "C18": ["C18"],
+ "C19": ["C19", "C08", "C03"], "C20": ["C20", "C06", "C11"],
 }
 
 def main():
